@@ -131,7 +131,11 @@ func TestCheck(t *testing.T) {
 	if qcheck.HandleReplay(r, []qcheck.Spec{{Name: "c05", Extra: readiness}, {Name: "c05-churn", Extra: readiness}}, nil) {
 		r.Finish()
 	}
-	if runner.ReplayPath() != "" && replayInstant(r, t) {
+	if runner.ReplayPath() != "" && (replayInstant(r, t) || replayMass(r, t)) {
+		r.Finish()
+	}
+	if os.Getenv("VERIF_C05_PART") == "mass" { // development switch
+		massPart(r, t)
 		r.Finish()
 	}
 	if os.Getenv("VERIF_C05_PART") == "instants" { // development switch
@@ -207,6 +211,8 @@ func TestCheck(t *testing.T) {
 		crashkit.Enumerate(r, scens)
 		// ---- instants a client may write, up to the last RFC 3339 instant ------------------------------------
 		instantsPart(r, t)
+		// ---- volume: hundreds / thousands of leases running out at the same instant ------------------------------
+		massPart(r, t)
 	}
 	r.Assume("SQLite: an expired lease is certainly released by a dequeue running >= 10 ms (the documented sweep granularity) after the expiry; earlier it may or may not be (the model follows the implementation there); the harness clock is monotonic")
 	r.Assume("crash part: process death only (see C01); Postgres not executed")
